@@ -180,6 +180,14 @@ def run(ck):
             times = [times[0]] * ntask          # all at the same sample
         for ti in srng_shuffle(srng, list(range(ntask))):
             lines.append("t%d@%d.0" % (ti, times[ti]))
+        if si % 3 == 2:
+            # dsp takes INPUTS while tasks run in the same sample (the VM's runtime used to lose them: fixed by 1eb8204)
+            nin = srng.range(1, 2)
+            args = ", ".join("i%d:float" % k for k in range(nin))
+            lines.append("fn dsp(%s){\n    x + %s\n}" % (args, " * 2.0 + ".join("i%d" % k for k in range(nin))))
+            sreqs.append({"src": "\n".join(lines) + "\n", "n": 10, "state": False, "sched": True,
+                          "inputs": [[float(srng.range(0, 9)) for _ in range(nin)] for _ in range(10)]})
+            continue
         lines.append("fn dsp(){\n    x\n}")
         sreqs.append({"src": "\n".join(lines) + "\n", "n": 10, "state": False, "sched": True})
     sres = run_impl(iexe, sreqs)
@@ -197,7 +205,7 @@ def run(ck):
             if hit:
                 bump("sched_diff_in_known_class_" + hit[0]); ck.known(findings[hit[0]], rq['src'].replace("\n", " ")[:140])
             else:
-                viol.append(("VM and WASM differ on a scheduler program (order or time of task execution)", rq['src'], {"vm": str(a)[:300], "wasm": str(b)[:300], "n": 10, "sched": True}))
+                viol.append(("VM and WASM differ on a scheduler program (order or time of task execution)", rq['src'], {"vm": str(a)[:300], "wasm": str(b)[:300], "n": 10, "sched": True, **({"inputs": rq["inputs"]} if "inputs" in rq else {})}))
 
     # ---------- (2) shipped sources and mutations: VM vs WASM ----------
     files = sorted(glob.glob(REPO + "/examples/*.mmm") + glob.glob(REPO + "/lib/*.mmm") +
